@@ -303,7 +303,9 @@ let run_line (line : String.t) : unit =
              let size = size_of (item_calc c) in
              print_kvs id (run_build_item c (parse_bufs bufs size))
          | "hist" ->
-             print_kvs id (run_hist (parse_hist t))
+             (* the spec side of a history is the spec of its declarative final configuration *)
+             let h = parse_hist t in
+             print_kvs id (run_hist h @ spec_build2 (final_config h))
          | _ -> Printf.printf "%s\tBADCASE=unknown-kind\n" id)
       with Failure msg -> Printf.printf "%s\tBADCASE=%s\n" id msg)
   | [id] -> Printf.printf "%s\tBADCASE=short\n" id
